@@ -25,3 +25,21 @@ pub open spec fn rfield_entry_step<B: ScopedBitRead>(r0: UperReader<B>, is_opt: 
             } else { res matches Ok(None) && r1.bits.r_pos() == r0.bits.r_pos() },
     }
 }
+
+/// a scope as `read_sequence` builds it for the root of a SEQUENCE / SET (before any component was read)
+pub open spec fn rscope_fresh(s: Scope) -> bool {
+    match s {
+        Scope::OptBitField(range) => true,
+        Scope::ExtensibleSequence { name, bit_pos, opt_bit_field, calls_until_ext_bitfield, number_of_ext_fields } => number_of_ext_fields <= HALF() && opt_bit_field is Some,
+        _ => false,
+    }
+}
+
+/// pre-condition of decoding one value: the protocol step is admissible and an OPTIONAL / DEFAULT component inside the root part
+/// of an extensible SEQUENCE finds the preamble range that `read_sequence` always installs (`read_opt` unwraps the presence flag)
+pub open spec fn rvalue_pre<B: ScopedBitRead>(r: UperReader<B>, is_opt: bool) -> bool {
+    rfield_entry_pre(r, is_opt) && (is_opt ==> (r.scope matches Some(s) ==> (match s {
+        Scope::ExtensibleSequence { name, bit_pos, opt_bit_field, calls_until_ext_bitfield, number_of_ext_fields } => calls_until_ext_bitfield > 0 ==> opt_bit_field is Some,
+        _ => true,
+    })))
+}
